@@ -313,3 +313,6 @@ func Build(s *Schema, withClientIdx bool) (*Built, error) {
 	b.DBModel = dbm
 	return b, nil
 }
+
+// GoAtomType is the Go type of an atom of the given OVSDB type.
+func GoAtomType(t string) reflect.Type { return atomGoType(t) }
